@@ -544,10 +544,11 @@ def _mentions(atom, lv):
 
 
 class Program:
-    def __init__(self, root="/repo", ndebug=True):
+    def __init__(self, root="/repo", ndebug=True, facts=None):
         self.root = root
         self.ndebug = ndebug
-        facts = extract(root, ndebug)
+        if facts is None:
+            facts = extract(root, ndebug)
         self.units = sorted(facts)
         self.raw = facts
         self.funcs = []              # all Func
